@@ -81,6 +81,7 @@ def jobs(tier):
         {"kind": "broker", "K": 6 if q else 8, "noreply": False},
         {"kind": "broker", "K": 5 if q else 7, "noreply": False, "reentrant": True},
         {"kind": "broker", "K": 5 if q else 7, "noreply": True},
+        {"kind": "broker", "K": 5 if q else 7, "noreply": False, "eb_cancel": True},
         {"kind": "bootstrap", "K": 5 if q else 6},
     ]
 
@@ -110,7 +111,7 @@ def _broker(job):
         bc = _KafkaBrokerClient(clock, net.endpoint_factory, BrokerMetadata(1, "h", 9092), "cid", lambda n: float(n))
         reqs = []
         st = {"closed": False, "close_d": None, "serial": 0}
-        ctx.sig("broker noreply=%s reentrant=%s" % (job["noreply"], bool(job.get("reentrant"))))
+        ctx.sig("broker noreply=%s reentrant=%s%s" % (job["noreply"], bool(job.get("reentrant")), " eb_cancel" if job.get("eb_cancel") else ""))
 
         def cur_transport():
             ts = net.open_transports()
@@ -132,6 +133,20 @@ def _broker(job):
             r.res.append(v)
             ctx.check(len(r.res) == 1, "completes-at-most-once", "request %d fired %d times" % (r.cid, len(r.res)))
             # the application may re-enter the broker client from the result callback
+            if isinstance(v, Failure) and getattr(r, "eb_cancel", 0):
+                # the application's failure handler cancels another request it still has outstanding
+                r.eb_cancel = 0
+                others = [x for x in reqs if x is not r and not x.res and not x.cancelled]
+                if others:
+                    x = others[0]
+                    ctx.log("cancel-from-errback", r.cid, x.cid)
+                    x.cancelled = True
+                    st.setdefault("eb_fired", []).append(x.cid)
+                    try:
+                        x.d.cancel()
+                    except Exception as e:  # noqa
+                        ctx.check(False, "no-exception-escapes", "cancelling request %d from the failure handler of request %d: %r" % (x.cid, r.cid, e))
+                    ctx.check(len(x.res) == 1 and isinstance(x.res[0], Failure) and x.res[0].check(CancelledError), "cancel-fails-with-cancelled-error", "cancelled from a failure handler: %r" % (x.res,))
             act = getattr(r, "cb_action", 0)
             if act and not isinstance(v, Failure):
                 r.cb_action = 0
@@ -160,6 +175,7 @@ def _broker(job):
             return None
 
         def expect_fired(before, exp, what):
+            exp = list(exp) + st.pop("eb_fired", [])
             got = sorted(r.cid for r in fired_now(before))
             ctx.check(got == sorted(exp), "exactly-the-addressed-request-fires", "%s: fired %r, expected %r" % (what, got, sorted(exp)))
 
@@ -193,6 +209,8 @@ def _broker(job):
                     r = Req(cid, expect)
                     if job.get("reentrant") and expect:
                         r.cb_action = ctx.choose("cb_action", 3)
+                    if job.get("eb_cancel"):
+                        r.eb_cancel = ctx.choose("eb_cancel", 2)
                     reqs.append(r)
                     ctx.log("request", cid, expect)
                     r.d = d = bc.makeRequest(cid, r.payload, expectResponse=expect)
@@ -293,6 +311,7 @@ def _broker(job):
                     unfired = [r for r in reqs if not r.res]
                     st["close_d"] = []
                     bc.close().addBoth(st["close_d"].append)
+                    st.pop("eb_fired", None)
                     for r in unfired:
                         okc = len(r.res) == 1 and isinstance(r.res[0], Failure) and r.res[0].check(ClientError)
                         if r.cancelled:
